@@ -97,6 +97,9 @@ def generate(ctx):
                 yield "graph", dict(k=item["k"], mask=item["mask"], t=1, fam="deep-sweeps", all_starts=True, n_msgs=4)
     if ctx.shard < ctx.pick(4, 32):
         yield "graph", dict(k=rng.choice([1, 2]), mask="f" * (4 if rng.random() < 0.5 else 1), t=rng.choice([1, 2]), fam="long-message", all_starts=False, n_msgs=1, long=True)
+    if ctx.shard == 3 or (not ctx.quick() and ctx.shard < 3):
+        yield "graph", dict(k=8, filter=dict(run=rng.choice([2, 3]), gc=rng.choice([[0.4, 0.6], [0.25, 0.75]])), t=rng.choice([1, 2]),
+                            fam="order-8", all_starts=False, n_msgs=6)
     ks = ctx.pick([1, 3, 3, 4], [1, 3, 3, 4, 4, 5])
     from props.C03 import _cycle_mask, _filter_mask
     for _ in range(ctx.pick(60, 800)):
@@ -135,7 +138,7 @@ def generate(ctx):
             yield "graph", dict(k=2, mask="%x" % m, t=t, fam="order2", all_starts=True, n_msgs=ctx.pick(4, 3))
 
 
-MESSAGE_KINDS = ["random", "random", "zeros", "ones", "leadzero", "trail1", "lead1", "pow2m1", "pow2p1", "len1", "len2", "len3",
+MESSAGE_KINDS = ["limbs", "dec-round", "random", "random", "random", "zeros", "ones", "leadzero", "trail1", "lead1", "pow2m1", "pow2p1", "len1", "len2", "len3",
                  "odd", "empty"]
 
 
@@ -172,7 +175,7 @@ def check_graph(ctx, case):
     has1 = bool((degs_all == 1).any())
     no3 = not bool((degs_all == 3).any())
     complete = bool((degs_all == 4).all())
-    starts = live if case["all_starts"] else rng.sample(live, min(len(live), 4))
+    starts = live if case["all_starts"] else rng.sample(live, min(len(live), 4 if k < 8 else 40))
     max_len = 48 if k <= 2 else 96
     for start in starts:
         for mi in range(case["n_msgs"]):
@@ -309,7 +312,7 @@ def floors(agg, tier):
     for name, need in (("t1|normal", 1000), ("t1|fast", 300), ("t2|normal", 1000), ("t2|fast", 300), ("t3|normal", 50),
                        ("t4|normal", 20), ("normal|met out-degree 1", 500), ("normal|met out-degree 3", 200),
                        ("fast|carried L+1", 50), ("family|chain", 100), ("family|localbiofilter", 10), ("msg|zeros", 100),
-                       ("family|deep-sweeps", 20), ("msg|long", 2), ("msg|twin", 200), ("encode with progress output", 500),
+                       ("family|deep-sweeps", 20), ("family|order-8", 100), ("msg|long", 2), ("msg|twin", 200), ("encode with progress output", 500),
                        ("generation preceded by edited predecessor/successor lists", 100)):
         if c.get(name, 0) < need:
             out.append("%s observed %d < %d" % (name, c.get(name, 0), need))
